@@ -1,16 +1,26 @@
 /-
-  C01 line-protocol driver (model `Vita.C01` executed on hardware `Float`).
+  C01 line-protocol driver: the interpreter made of the member functions EXTRACTED from the current
+  sources (Vita/C01/GenInterp.lean run by the semantics of Lang.lean, wiring in ModelG.lean), executed on
+  hardware `Float`; `denote` is the reference semantics.
 
     prog R C BI BC ; i c desc par n a0 c0 … ; …     load a program (R×C genes; genes not listed are
                                                     empty terminals), new interpreter object
           desc = F:<symbol name> (looked up in `Vita.C01.table`) | X:<k> variable | K:<value> constant
           par  = 16 hex digits (the gene's parameter), n = number of arguments, (a_j, c_j) = locus of argument j
         -> ok wf=<0|1> size=<nodes of the expression tree, capped> reach=<distinct active loci>
+    reprog R C BI BC ; …                            another program of the same shape behind the SAME interpreter
+                                                    object (the individual the object points to was assigned to):
+                                                    the object's memo / ip_ / example_ are kept
+        -> ok wf=… size=… reach=…
     new                                             a freshly constructed interpreter object   -> ok
     stale                                           (model only) fill the object with rubbish: every memo
                                                     entry valid with a wrong value, ip elsewhere -> ok
     run v0 v1 …                                     src_interpreter::run(example) on the current object
         -> <model interpreter> <denote | skip> ok=<0|1>
+    run0                                            interpreter<i_mep>::run() (no example; base-class fetch_var)
+        -> <model interpreter> <denote on the empty example | skip> ok=<0|1>
+    pen                                             penalty() on the current object
+        -> <penalty | T> <reference: penalty of the start gene> ok=<0|1>
     rep n v0 v1 …                                   the same example n times in a row on the current object
         -> <model interpreter, last run> <denote | skip> ok=<0|1> same=<1 iff all n answers are equal>
     an example may be written sparsely:  @<size> <default> <index>:<value> …
@@ -22,13 +32,15 @@
   anything else -> bad-op
 -/
 import Vita.C01.Model
+import Vita.C01.ModelG
 import Vita.C01.Prims
 import Vita.C13.Wire
-open Vita Vita.C01 Vita.Wire
+open Vita Vita.C01 Vita.C01.Lang Vita.Wire
 
 structure DState where
   g : Genome Float
-  st : St Float
+  pen : Locus → Bool          -- the symbol at a locus overrides `penalty_nvi` (GenInterp.shipped)
+  st : XS Float
   size : Nat
 
 def emptyGene : Gene Float := ⟨constP .void, 0.0, [], []⟩
@@ -48,26 +60,30 @@ def pairs : List Nat → Option (List (Nat × Nat))
   | [_] => none
   | a :: c :: r => (pairs r).map fun t => (a, c) :: t
 
-def decodeBody (desc : String) (nargs : Nat) : Option (Prog Float (Val Float)) :=
+/-- body and "overrides penalty_nvi" of a symbol -/
+def decodeBody (desc : String) (nargs : Nat) : Option (Prog Float (Val Float) × Bool) :=
   match desc.toList with
   | 'F' :: ':' :: r =>
     let name := String.ofList r
     match (table (F := Float)).find? (fun e => e.name == name) with
-    | some e => if e.arity == nargs then some e.body else none
+    | some e =>
+      if e.arity == nargs then
+        some (e.body, GenInterp.shipped.any fun s => s.2.1 == name && s.2.2.1 == nargs && s.2.2.2)
+      else none
     | none => none
-  | 'X' :: ':' :: r => if nargs == 0 then (String.ofList r).toNat?.map varP else none
-  | 'K' :: ':' :: r => if nargs == 0 then (decodeVal? (String.ofList r)).map constP else none
+  | 'X' :: ':' :: r => if nargs == 0 then (String.ofList r).toNat?.map fun k => (varP k, false) else none
+  | 'K' :: ':' :: r => if nargs == 0 then (decodeVal? (String.ofList r)).map fun v => (constP v, false) else none
   | _ => none
 
-def decodeGene (ts : List String) : Option (Nat × Nat × Gene Float) :=
+def decodeGene (ts : List String) : Option (Nat × Nat × Gene Float × Bool) :=
   match ts with
   | i :: c :: desc :: par :: n :: rest =>
     match i.toNat?, c.toNat?, hexNat? par, n.toNat?, rest.mapM String.toNat? with
     | some i, some c, some p, some n, some xs =>
       match pairs xs, decodeBody desc n with
-      | some ps, some body =>
+      | some ps, some (body, pen) =>
         if ps.length == n then
-          some (i, c, ⟨body, Float.ofBits (UInt64.ofNat p), ps.map (·.1), ps.map (·.2)⟩)
+          some (i, c, ⟨body, Float.ofBits (UInt64.ofNat p), ps.map (·.1), ps.map (·.2)⟩, pen)
         else none
       | _, _ => none
     | _, _, _, _, _ => none
@@ -111,13 +127,14 @@ def loadProg (ts : List String) : Option DState :=
   | [r, c, bi, bc] :: genes =>
     match r.toNat?, c.toNat?, bi.toNat?, bc.toNat?, (genes.filter (· ≠ [])).mapM decodeGene with
     | some r, some c, some bi, some bc, some gs =>
-      let base : Array (Array (Gene Float)) := Array.replicate r (Array.replicate c emptyGene)
-      let arr := gs.foldl (fun (m : Array (Array (Gene Float))) (t : Nat × Nat × Gene Float) =>
+      let base : Array (Array (Gene Float × Bool)) := Array.replicate r (Array.replicate c (emptyGene, false))
+      let arr := gs.foldl (fun (m : Array (Array (Gene Float × Bool))) (t : Nat × Nat × Gene Float × Bool) =>
         m.set! t.1 ((m.getD t.1 #[]).set! t.2.1 t.2.2)) base
-      let gene : Locus → Gene Float := fun l => (arr.getD l.index #[]).getD l.cat emptyGene
+      let gene : Locus → Gene Float := fun l => ((arr.getD l.index #[]).getD l.cat (emptyGene, false)).1
+      let pen : Locus → Bool := fun l => ((arr.getD l.index #[]).getD l.cat (emptyGene, false)).2
       let g : Genome Float := ⟨r, c, gene, ⟨bi, bc⟩⟩
       let sz := ((treeSizes r c gene cap).getD bi #[]).getD bc cap
-      some ⟨g, St.init g, sz⟩
+      some ⟨g, pen, XS.init g, sz⟩
     | _, _, _, _, _ => none
   | _ => none
 
@@ -141,13 +158,23 @@ def decodeExample (vs : List String) : Option (List (Val Float)) :=
   | _ => vs.mapM decodeVal?
 
 /-- same state, memo stored as a table over the loci of the genome -/
-def tabulate (g : Genome Float) (s : St Float) : St Float :=
+def tabulate (g : Genome Float) (x : XS Float) : XS Float :=
+  let s := x.1
   let tbl : Array (Array (Bool × Val Float)) :=
     (Array.range g.rows).map fun i => (Array.range g.cats).map fun c => s.memo ⟨i, c⟩
-  { s with memo := fun l => (tbl.getD l.index #[]).getD l.cat (false, .void) }
+  ({ s with memo := fun l => (tbl.getD l.index #[]).getD l.cat (false, .void) }, x.2)
 
-def staleOf (g : Genome Float) : St Float :=
-  ⟨fun l => (true, .int (1000 + l.index)), ⟨g.rows - 1, 0⟩, true⟩
+def staleOf (g : Genome Float) : XS Float :=
+  (⟨fun l => (true, .int (1000 + l.index)), ⟨g.rows - 1, 0⟩, true⟩, some [.str "stale", .int 77])
+
+def okStr (x : XS Float) : String := if x.1.ok then "ok=1" else "ok=0"
+
+/-- reference: the four-term comparison penalty of the start gene if its symbol has one, else 0 -/
+def penDenoteD (d : DState) : Nat :=
+  let gn := d.g.gene d.g.best
+  if d.pen d.g.best then
+    (if gn.args.getD 0 0 == gn.args.getD 1 0 then 1 else 0) + (if gn.args.getD 2 0 == gn.args.getD 3 0 then 1 else 0)
+  else 0
 
 def step (d : DState) (line : String) : DState × String :=
   match (line.trimAscii.toString.splitOn " ").filter (· ≠ "") with
@@ -157,14 +184,32 @@ def step (d : DState) (line : String) : DState × String :=
       let wf := wfStruct d'.g && decide (d'.g.inB d'.g.best)
       (d', s!"ok wf={if wf then 1 else 0} size={d'.size} reach={reachCount d'.g}")
     | none => (d, "bad-op")
-  | ["new"] => ({ d with st := St.init d.g }, "ok")
+  | "reprog" :: ts =>
+    match loadProg ts with
+    | some d' =>
+      if d'.g.rows == d.g.rows && d'.g.cats == d.g.cats then
+        let wf := wfStruct d'.g && decide (d'.g.inB d'.g.best)
+        ({ d' with st := d.st }, s!"ok wf={if wf then 1 else 0} size={d'.size} reach={reachCount d'.g}")
+      else (d, "bad-op")
+    | none => (d, "bad-op")
+  | ["new"] => ({ d with st := XS.init d.g }, "ok")
   | ["stale"] => ({ d with st := staleOf d.g }, "ok")
+  | ["run0"] =>
+    let r := run0G d.g d.st
+    let den := if d.size < cap then encodeOut (denote d.g [] d.g.best) else "skip"
+    ({ d with st := tabulate d.g r.2 }, s!"{encodeOut r.1} {den} {okStr r.2}")
+  | ["pen"] =>
+    let r := penaltyG d.g true d.pen d.st
+    let o := match r.1 with
+      | some n => toString n
+      | none => "T"
+    ({ d with st := r.2 }, s!"{o} {penDenoteD d} {okStr r.2}")
   | "run" :: vs =>
     match decodeExample vs with
     | some ex =>
-      let r := run d.g ex d.st
+      let r := runG d.g ex d.st
       let den := if d.size < cap then encodeOut (denote d.g ex d.g.best) else "skip"
-      ({ d with st := tabulate d.g r.2 }, s!"{encodeOut r.1} {den} ok={if r.2.ok then 1 else 0}")
+      ({ d with st := tabulate d.g r.2 }, s!"{encodeOut r.1} {den} {okStr r.2}")
     | none => (d, "bad-op")
   | "rep" :: n :: vs =>
     match n.toNat?, decodeExample vs with
@@ -172,12 +217,12 @@ def step (d : DState) (line : String) : DState × String :=
       if n == 0 then (d, "bad-op") else
       let den := if d.size < cap then encodeOut (denote d.g ex d.g.best) else "skip"
       let (st, last, same) := (List.range n).foldl
-        (fun (acc : St Float × String × Bool) _ =>
-          let r := run d.g ex acc.1
+        (fun (acc : XS Float × String × Bool) _ =>
+          let r := runG d.g ex acc.1
           let o := encodeOut r.1
           (tabulate d.g r.2, o, acc.2.2 && (acc.2.1 == "" || acc.2.1 == o)))
         (d.st, "", true)
-      ({ d with st := st }, s!"{last} {den} ok={if st.ok then 1 else 0} same={if same then 1 else 0}")
+      ({ d with st := st }, s!"{last} {den} {okStr st} same={if same then 1 else 0}")
     | _, _ => (d, "bad-op")
   | _ => (d, "bad-op")
 
@@ -189,4 +234,4 @@ partial def loop (h : IO.FS.Stream) (out : IO.FS.Stream) (d : DState) : IO Unit 
   loop h out d'
 
 def main : IO Unit := do
-  loop (← IO.getStdin) (← IO.getStdout) ⟨emptyGenome, St.init emptyGenome, 0⟩
+  loop (← IO.getStdin) (← IO.getStdout) ⟨emptyGenome, fun _ => false, XS.init emptyGenome, 0⟩
